@@ -559,8 +559,17 @@ class URL:
     def _cache_netloc(self) -> None:
         """Cache the netloc parts of the URL."""
         c = self._cache
-        split_loc = split_netloc(self._netloc)
-        c["raw_user"], c["raw_password"], c["raw_host"], c["explicit_port"] = split_loc
+        user, password, host, port = split_netloc(self._netloc)
+        if host is None and self._netloc:
+            # An authority with an empty host (e.g. "//:77") has the empty
+            # string as its host, the same as the constructor pre-computes.
+            host = ""
+        c["raw_user"], c["raw_password"], c["raw_host"], c["explicit_port"] = (
+            user,
+            password,
+            host,
+            port,
+        )
 
     def is_absolute(self) -> bool:
         """A check for absolute URLs.
@@ -790,7 +799,7 @@ class URL:
         """
         if (raw := self.raw_host) is None:
             return None
-        if raw[-1] == ".":
+        if raw and raw[-1] == ".":
             # Remove all trailing dots from the netloc as while
             # they are valid FQDNs in DNS, TLS validation fails.
             # See https://github.com/aio-libs/aiohttp/issues/3636.
